@@ -609,6 +609,7 @@ func checkC15(c *Ctx) {
 	c15SessionInContext(c)
 	c15IDPresence(c)
 	dispatchUngated(c, "R-dispatch-ungated")
+	c05LoopCapture(c, "R-loop-capture") // each registered middleware is the one that runs: wrappers made in a loop do not share the loop variable
 	c15ResultPrivate(c, "R-result-private")
 
 	// ---- R-error-internal: "a middleware error becomes a JSON-RPC internal error for that request": wherever a
